@@ -278,6 +278,17 @@ def worker(job):
     os.makedirs(wd)
     try:
         build_tree(rng, sb)
+        # a mount point below the starting point (every other worker): its directory entry in the parent carries the inode
+        # number of the covered directory, lstat() that of the mounted root - %i is the latter.
+        os.mkdir(os.path.join(sb, "r", "mnt"))
+        if k % 2 == 0:
+            import subprocess
+            if subprocess.run(["mount", "-t", "tmpfs", "-o", "size=64k", "none", os.path.join(sb, "r", "mnt")], capture_output=True).returncode == 0:
+                st.inc("trees_with_a_mount_point")
+                with open(os.path.join(sb, "r", "mnt", "inside"), "w") as f:
+                    f.write("x")
+            else:
+                st.inc("mount_not_permitted")
         walks = {}
         cases, meta = [], {}
         for i in range(nfmt):
@@ -432,6 +443,8 @@ def run(ctx):
     n = ctx.scale(3200, 4800000)
     per = min(n // nw, 12000)                 # bounded batches: a worker holds its cases and their output in memory
     ctx.pmap(worker, [(k, per, ctx.seed, ctx.quick) for k in range(max(nw, n // per))])
+    if ctx.stats.counters.get("mount_not_permitted"):
+        ctx.stats.notes.append("mounting a tmpfs inside the sandbox is not permitted here: %i of a mount point was not observed")
     for d in DIRECTIVES:
         ctx.require("directive:%" + d, 20)
     for key in ("escapes", "binary_runs", "identity_evaluations"):
